@@ -202,6 +202,26 @@ class Toks:
         return self.i >= len(self.t)
 
 
+MODEL_LOG = []     # (command line, raw output line) of every runner call of this process (for the kernel cross-check)
+LAST_KC = None
+
+
+def kernel_crosscheck(pid, tier, seed):
+    """Re-evaluate a sample of the runner's answers inside Coq (vm_compute); see harness/kernelcheck.py."""
+    global LAST_KC
+    if os.environ.get('VERIF_NO_KC') or not MODEL_LOG:
+        return None
+    import random as _r
+    import kernelcheck
+    rng = _r.Random(seed * 7919 + 13)
+    lines = [a for a, _ in MODEL_LOG]
+    outs = [b for _, b in MODEL_LOG]
+    LAST_KC = kernelcheck.crosscheck(pid, lines, outs, rng, sample=(16 if tier == 'quick' else 160),
+                                     per_term_timeout=(25 if tier == 'quick' else 120), timeout=(600 if tier == 'quick' else 6000))
+    LAST_KC['runner_lines_total'] = len(lines)
+    return LAST_KC
+
+
 def run_model(lines, shards=None, timeout=3000):
     """Run the extracted model on command lines; returns one Toks per line."""
     build_runner()
@@ -232,6 +252,8 @@ def run_model(lines, shards=None, timeout=3000):
             raise RuntimeError('runner produced %d lines for %d commands' % (len(ol), len(chunks[s])))
         for j, o in enumerate(ol):
             res[s + j * shards] = Toks(o)
+            if len(MODEL_LOG) < 200000:
+                MODEL_LOG.append((lines[s + j * shards], o))
     return res
 
 
@@ -401,6 +423,22 @@ class Verdict:
             shown += 1
             rc = 1
         self.nviol = len(self.fail)
+        kc = None
+        try:
+            kc = kernel_crosscheck(self.pid, self.tier, self.seed)
+        except Exception as e:   # noqa
+            kc = {'error': 'kernel cross-check crashed: %r' % (e,), 'mismatches': [], 'checked': 0}
+            global LAST_KC
+            LAST_KC = kc
+        if kc is not None and (kc.get('mismatches') or kc.get('error')) and not self.fail:
+            path = os.path.join(VERIF, 'replays', '%s-kernel.json' % self.pid)
+            bad = [{'command': MODEL_LOG[i][0][:4000], 'runner_output': MODEL_LOG[i][1][:4000]} for i in kc.get('mismatches', [])[:3]]
+            json.dump({'what': 'correspondence broken: the extracted runner and the Coq kernel (vm_compute of the same definitions) disagree, '
+                               'or the kernel re-evaluation could not be completed', 'kernel_crosscheck': kc, 'cases': bad},
+                      open(path, 'w'), indent=1, default=str)
+            print('VIOLATION property=%s replay=%s no-failing-input-found' % (self.pid, os.path.relpath(path, VERIF)))
+            self.nviol += 1
+            rc = 1
         if l0 is not None and not l0['ok'] and not self.fail:
             path = os.path.join(VERIF, 'replays', '%s-l0.json' % self.pid)
             json.dump({'what': 'proof layer no longer checks', 'broken': l0['broken'], 'log': l0['log'][-3000:]},
@@ -437,6 +475,10 @@ def write_evidence(pid, tier, seed, l0, coverage, t0, violations, assumptions=No
     ]
     if known:
         cov['known_findings_hit'] = known
+    if LAST_KC is not None:
+        cov['kernel_crosscheck'] = {k: v for k, v in LAST_KC.items() if k != 'error'}
+        cov['trusted_base'][2] += (' (cross-checked on this run: %d sampled runner answers re-evaluated inside Coq with vm_compute, %d mismatches)'
+                                   % (LAST_KC.get('checked', 0), len(LAST_KC.get('mismatches', []))))
     ev = {
         'property_id': pid, 'tier': tier, 'seed': seed, 'level': 'proof',
         'coverage': cov,
